@@ -13,6 +13,35 @@
 //! (every attribute_length = bytes consumed, every count of its table's width, no trailing bytes);
 //! duke::read_class re-reads them as a second foreign reader.
 //!
+//! The environment (c20/io.rs): every class that came back byte for byte, and every value that was read back equal, travels
+//! through scripted `std::io::Read` / `Write` behaviours - short serves (chunk sizes, BufReader capacities, one boundary at
+//! every byte offset, periodic boundaries with every phase), `Interrupted`, partial accepts; and through the refusing ones:
+//!   * a writer that fails after every prefix, a writer that is full after every prefix (`Ok(0)`, never an error), a slice
+//!     one byte too small: `write` must come back with an error (not Ok, not a panic, not a loop that never ends);
+//!   * a reader that fails with an I/O error after every prefix: `read` must come back with an error (not a class);
+//!   * the file cut off after every prefix (not a class file, outside the statement): only a panic or a hang counts;
+//!   * the class followed by other data in the same stream: a refusal is accepted, the same class with the caller's data
+//!     behind it swallowed (`read` takes a `&mut impl Read` the caller goes on reading from) is not.
+//!
+//! History of a value (c20/edits.rs): chains  build | read → measure → write → edit one table in place (every table at
+//! every depth, the constant pool grows) → judge again; and sequences: every ordered pair (A, B) of 60 values (every
+//! attribute kind; pools of equal length with the names at other indices) on one thread - A read, measured, written, then
+//! dropped or kept alive - B asked for length / write / to_bytes in all six orders and read: all as for B alone.
+//!
+//! Families of raw values added by the second extension pass (values.rs, each with a floor):
+//!   attribute-name-text       unknown attributes named with k ASCII characters (k up to 140) + one character of 1/2/3
+//!                             bytes, a surrogate pair, an encoded NUL, a lone surrogate - at the end, the start, and
+//!                             before / after / inside the name of a modelled attribute; the same texts behind SourceFile,
+//!                             in SourceDebugExtension, as a field name
+//!   flag-bits                 each single bit, all bits, 0x7fff, 0x8001 in every flags field (class, field, method with
+//!                             and without body, inner class, method parameter, module, requires, exports, opens)
+//!   element-value-nesting     arrays in arrays, annotations in annotations, both alternating, 1..=62 deep (the strict
+//!                             parser follows 64 levels), in every attribute that holds element values
+//!   byte-array-sizes          Other.info, SourceDebugExtension, Utf8, Code.code with 4/8/16/32/64 KiB -1/+0/+1 bytes of
+//!                             content with a prime period (a block in another block's place shows)
+//!   pool-index-positions      attributes named through pool indices 255/256/257/32767/32768/65533 (operand one higher)
+//!   attribute-kinds-by-version every attribute kind in classes of 14 versions (45.0 .. 65.0, 59.65535)
+//!
 //! A difference between two byte strings is located with the strict parser's field map of the
 //! expected bytes (which field, in which attribute) and keyed by kind and site, e.g.
 //! `length:NestMembers:short-by-2`; comparison continues after a difference, so a known finding
@@ -57,12 +86,17 @@ struct Acc {
 	/// enum variants in the raw values of part 2
 	value_census: Census,
 	focus: BTreeMap<&'static str, u64>,
+	/// optional raw values outside the strict parser's domain (not judged), per focus
+	skipped: BTreeMap<&'static str, u64>,
 	/// (label, note) of the first case by label on which duke disagreed with the strict parser
 	duke_note: Option<(String, String)>,
 	io_short_serves: u64,
 	io_interrupts: u64,
 	io_short_accepts: u64,
 	edit_chains: BTreeMap<&'static str, u64>,
+	edit_chains_from_read: u64,
+	/// the deepest nesting of element values among the values that were read back equal
+	deepest_element_nesting: u64,
 }
 
 impl Acc {
@@ -82,12 +116,17 @@ impl Acc {
 		for (k, v) in o.focus {
 			*self.focus.entry(k).or_insert(0) += v;
 		}
+		for (k, v) in o.skipped {
+			*self.skipped.entry(k).or_insert(0) += v;
+		}
 		for (k, v) in o.edit_chains {
 			*self.edit_chains.entry(k).or_insert(0) += v;
 		}
 		self.io_short_serves += o.io_short_serves;
 		self.io_interrupts += o.io_interrupts;
 		self.io_short_accepts += o.io_short_accepts;
+		self.edit_chains_from_read += o.edit_chains_from_read;
+		self.deepest_element_nesting = self.deepest_element_nesting.max(o.deepest_element_nesting);
 		self.read_census.merge(o.read_census);
 		self.value_census.merge(o.value_census);
 		self.duke_note = match (self.duke_note.take(), o.duke_note) {
@@ -417,7 +456,7 @@ fn io_alphabet(ctx: &Ctx, acc: &mut Acc, bytes: &[u8], value: &ClassFile, depth:
 		let step = if bytes.len() <= 300 { 1 } else { bytes.len() / 101 + 1 };
 		(0..bytes.len()).step_by(step).chain([bytes.len() - 1]).collect()
 	};
-	for limit in limits {
+	for &limit in &limits {
 		let rp = || format!("failing-writer-after={limit}\n{}", replay());
 		acc.st.eval();
 		match vcore::guard(|| io::with_failing_writer(limit, |mut w| value.write(&mut w))) {
@@ -432,6 +471,61 @@ fn io_alphabet(ctx: &Ctx, acc: &mut Acc, bytes: &[u8], value: &ClassFile, depth:
 		Err(p) => ctx.diff("write:short-slice:panic", &format!("write panicked at {} into a slice one byte too small: {}", p.site, p.msg), replay),
 		Ok(Ok(())) => ctx.diff("write:short-slice:reported-success", "write returned Ok into a slice one byte too small", replay),
 		Ok(Err(_)) => acc.st.outcome("io-write-error-reported"),
+	}
+	for &limit in &limits {
+		// a writer that is full: accepts `limit` bytes, then nothing (Ok(0), never an error) - write must give up with an
+		// error (a loop that waits for the writer to take more never ends: the watchdog reports it as a timeout)
+		let rp = || format!("full-writer-after={limit}\n{}", replay());
+		acc.st.eval();
+		match vcore::guard(|| io::with_full_writer(limit, |mut w| value.write(&mut w))) {
+			Err(p) => ctx.diff("write:full-writer:panic", &format!("write panicked at {} when the writer accepted nothing after {limit} bytes: {}", p.site, p.msg), &rp),
+			Ok((Ok(()), _)) => ctx.diff("write:full-writer:reported-success", &format!("write returned Ok although the writer accepted only {limit} of {} bytes", bytes.len()), &rp),
+			Ok((Err(_), _)) => acc.st.outcome("io-write-full-writer-error-reported"),
+		}
+		// a reader that fails (an I/O error, not end-of-file) after `limit` bytes: the error must come back
+		let rp = || format!("failing-reader-after={limit}\n{}", replay());
+		acc.st.eval();
+		match io::with_failing_reader(bytes, limit, |mut r| vcore::guard(|| ClassFile::read(&mut r))) {
+			(Err(p), _) => ctx.diff("read:failing-reader:panic", &format!("read panicked at {} when the reader failed after {limit} bytes: {}", p.site, p.msg), &rp),
+			(Ok(Ok(_)), _) => ctx.diff("read:failing-reader:reported-success", &format!("read returned a class although the reader failed after {limit} of {} bytes", bytes.len()), &rp),
+			(Ok(Err(_)), _) => acc.st.outcome("io-read-error-reported"),
+		}
+		// the file cut off after `limit` bytes is not a class file: outside the statement, only a panic or a hang counts
+		let rp = || format!("cut-off-after={limit}\n{}", replay());
+		for kind in [io::ReaderKind::Slice, io::ReaderKind::Chunk(3)] {
+			acc.st.eval();
+			match io::with_reader(kind, &bytes[..limit], |mut r| vcore::guard(|| ClassFile::read(&mut r))).0 {
+				Err(p) => ctx.diff("read:cut-off-file:panic", &format!("read panicked at {} on the first {limit} bytes of a class file: {}", p.site, p.msg), &rp),
+				Ok(Ok(_)) => acc.st.outcome("io-read-cut-off-file-accepted (not judged)"),
+				Ok(Err(_)) => acc.st.outcome("io-read-cut-off-file-refused"),
+			}
+		}
+	}
+	// the class is followed by other data in the stream (here: the beginning of another class file): `read` takes a
+	// `&mut impl Read` that the caller goes on reading from, so what is behind the class must still be there. A refusal
+	// is accepted (the statement is about class files, not streams); the same value with bytes of the caller's data
+	// swallowed is a silently wrong answer.
+	let mut stream = bytes.to_vec();
+	stream.extend_from_slice(&bytes[..bytes.len().min(24)]);
+	let trailing: &[io::ReaderKind] = if depth == Depth::Small {
+		&[io::ReaderKind::Slice, io::ReaderKind::Chunk(3)]
+	} else {
+		&[io::ReaderKind::Slice, io::ReaderKind::CursorVec, io::ReaderKind::Chunk(1), io::ReaderKind::Chunk(13), io::ReaderKind::Buf(4), io::ReaderKind::Buf(64), io::ReaderKind::Interrupted(4), io::ReaderKind::Periodic { period: 61, phase: 0 }]
+	};
+	for &kind in trailing {
+		let fam = kind.family();
+		let rp = || format!("reader={kind:?} over the class followed by its own first 24 bytes\n{}", replay());
+		let (res, trace) = io::with_reader(kind, &stream, |mut r| vcore::guard(|| ClassFile::read(&mut r)));
+		acc.st.eval();
+		match res {
+			Err(p) => ctx.diff(&format!("read:{fam}-reader:data-behind-the-class:panic"), &format!("read panicked at {} on a class that is followed by other data: {}", p.site, p.msg), &rp),
+			Ok(Err(_)) => acc.st.outcome("io-read-data-behind-the-class-refused (not judged)"),
+			Ok(Ok(v)) if &v != value => ctx.diff(&format!("read:{fam}-reader:data-behind-the-class:differs"), "read returns another value when the class is followed by other data", &rp),
+			// the statement says nothing about the reader's position behind the class (a `read` that buffers ahead still
+			// reproduces every class byte for byte): recorded, not judged
+			Ok(Ok(_)) if trace.consumed != bytes.len() => acc.st.outcome("io-read-data-behind-the-class-taken-too (statement silent, not judged)"),
+			Ok(Ok(_)) => acc.st.outcome("io-read-data-behind-the-class-left-in-place"),
+		}
 	}
 }
 
@@ -621,20 +715,145 @@ fn label_number(label: &str) -> usize {
 fn edit_chains(ctx: &Ctx, acc: &mut Acc, case: &values::Case) {
 	let mut probe = case.value.clone();
 	let n_tables = edits::tables(&mut probe).len();
+	// the second past a value can have: it was not built but read (on this thread, just now) from the bytes it is written as
+	let from_read = label_number(&case.label) % ctx.tier.pick(3usize, 1) == 0;
 	for t in 0..n_tables {
 		for (op, op_name) in [(edits::Op::Pop, "pop"), (edits::Op::Dup, "dup")] {
 			let mut v = case.value.clone();
 			// the value has a past: it was measured, written and written again
 			let before = vcore::guard(|| (v.length(), v.to_bytes(), v.to_bytes().len()));
-			if before.is_err() {
+			let Ok((_, bytes, _)) = before else {
 				return; // reported by check_value on the case itself
-			}
+			};
 			let Some(table) = edits::apply(&mut v, t, op) else { continue };
 			*acc.edit_chains.entry(table).or_insert(0) += 1;
 			let edited = values::Case { label: format!("{}/edit/{t}/{op_name}", case.label), focus: case.focus, pool: case.pool, value: v, deep: false, optional: true };
 			check_value(ctx, acc, &edited, false);
+			if !from_read {
+				continue;
+			}
+			let Ok(Ok(mut v)) = vcore::guard(|| ClassFile::read(&mut Cursor::new(&bytes))) else { continue };
+			if v != case.value {
+				continue; // reported by check_value on the case itself
+			}
+			let _ = vcore::guard(|| {
+				let mut sink = Vec::new();
+				(v.write(&mut sink).is_ok(), v.length())
+			});
+			if edits::apply(&mut v, t, op).is_none() {
+				continue;
+			}
+			acc.edit_chains_from_read += 1;
+			let edited = values::Case { label: format!("{}/edit/{t}/{op_name}/read-first", case.label), focus: case.focus, pool: case.pool, value: v, deep: false, optional: true };
+			check_value(ctx, acc, &edited, false);
 		}
 	}
+}
+
+// ---------------------------------------------------------------------------------------------
+// sequences: one value after another on one thread
+//
+// What `read`, `write`, `to_bytes` and `length` answer for a value depends on that value alone - not on which other
+// class this thread read, measured or wrote before, not on whether that other value is still alive or its memory has
+// been given to this one, and not on the order in which the three are asked. Every ordered pair (A, B) of the sequence
+// values (every attribute kind; pools of equal length with the names at other indices), B judged after A, in all six
+// orders of asking, against the JVMS bytes of B.
+
+const OBSERVER_ORDERS: [[u8; 3]; 6] = [[0, 1, 2], [0, 2, 1], [1, 0, 2], [1, 2, 0], [2, 0, 1], [2, 1, 0]];
+
+fn sequence_pair(ctx: &Ctx, acc: &mut Acc, set: &[(values::Case, Vec<u8>)], i: usize, j: usize) {
+	let (a, a_bytes) = (&set[i].0, &set[i].1);
+	let (b, b_bytes) = (&set[j].0, &set[j].1);
+	let replay = || format!("sequence-pair={i},{j}\nfirst: {}\nthen:  {}\nJVMS bytes of the second: {}", a.label, b.label, clip(vcore::hex(b_bytes), 3000));
+	for (o, order) in OBSERVER_ORDERS.iter().enumerate() {
+		for keep_first_alive in [false, true] {
+			acc.st.eval();
+			let res = vcore::guard(|| {
+				// the first value: read from its bytes, measured, written; then dropped or kept alive
+				let first = ClassFile::read(&mut Cursor::new(a_bytes)).ok();
+				let own = Box::new(a.value.clone());
+				let mut sink = Vec::new();
+				let _ = (own.length(), own.write(&mut sink).is_ok(), own.to_bytes().len());
+				let kept = if keep_first_alive { Some((first, own)) } else { drop((first, own)); None };
+				// the second value, on the same thread
+				let second = Box::new(b.value.clone());
+				let (mut length, mut written, mut to_bytes) = (0usize, Vec::new(), Vec::new());
+				let mut write_ok = true;
+				for what in order {
+					match what {
+						0 => length = second.length(),
+						1 => write_ok = second.write(&mut written).is_ok(),
+						_ => to_bytes = second.to_bytes(),
+					}
+				}
+				let back = ClassFile::read(&mut Cursor::new(b_bytes));
+				drop(kept);
+				(length, write_ok, written, to_bytes, back)
+			});
+			let which = if keep_first_alive { "alive" } else { "dropped" };
+			match res {
+				Err(p) => ctx.diff(&format!("panic@{}", p.file()), &format!("the second value of a sequence made the crate panic at {}: {}", p.site, p.msg), &replay),
+				Ok((length, write_ok, written, to_bytes, back)) => {
+					let mut fine = true;
+					if !write_ok || written != *b_bytes {
+						fine = false;
+						ctx.diff("sequence:write-after-another-value:differs", &format!("written after another value (now {which}), asked in order {order:?} (0 = length, 1 = write, 2 = to_bytes), write produces {} bytes that are not the {} JVMS bytes it produces on its own", written.len(), b_bytes.len()), &replay);
+					}
+					if to_bytes != *b_bytes {
+						fine = false;
+						ctx.diff("sequence:to_bytes-after-another-value:differs", &format!("after another value (now {which}), asked in order {order:?}, to_bytes produces {} bytes that are not the {} JVMS bytes", to_bytes.len(), b_bytes.len()), &replay);
+					}
+					if length != b_bytes.len() {
+						fine = false;
+						ctx.diff("sequence:length-after-another-value:differs", &format!("after another value (now {which}), asked in order {order:?}, length() = {length} for a value of {} bytes", b_bytes.len()), &replay);
+					}
+					match back {
+						Ok(v) if v == b.value => {},
+						Ok(_) => {
+							fine = false;
+							ctx.diff("sequence:read-after-another-class:differs", "read after another class returns another value than on its own", &replay);
+						},
+						Err(e) => {
+							fine = false;
+							ctx.diff("sequence:read-after-another-class:refused", &format!("read after another class refuses a class it reads on its own: {e}"), &replay);
+						},
+					}
+					if fine {
+						acc.st.outcome("sequence-second-value-as-on-its-own");
+						if o == 0 && !keep_first_alive && i != j && a_bytes.len() != b_bytes.len() {
+							acc.st.outcome("sequence-of-two-values-of-different-size");
+						}
+					}
+				},
+			}
+		}
+	}
+}
+
+/// the sequence values with their JVMS bytes (accepted by the strict parser, and what the crate writes for the value on a fresh thread)
+fn sequence_set() -> Vec<(values::Case, Vec<u8>)> {
+	values::sequence_values().into_iter().map(|c| {
+		let reference = refenc::class(&c.value);
+		if let Err(e) = cfmodel::parse(&reference) {
+			vcore::machinery_fail(&format!("{}: the strict parser rejects the reference encoding of a sequence value: {e}", c.label));
+		}
+		(c, reference)
+	}).collect()
+}
+
+fn run_sequences(ctx: &Ctx) -> (Acc, usize) {
+	let set = sequence_set();
+	let n = set.len();
+	// every value on its own first (also reported by part 2 for the same values; here it says that the oracle of the pairs is sound)
+	let mut acc = Acc::default();
+	for (c, _) in &set {
+		check_value(ctx, &mut acc, c, false);
+	}
+	let pairs = (0..n * n).into_par_iter().fold(Acc::default, |mut acc, k| {
+		vcore::watched(|| format!("sequence-pair={},{}", k / n, k % n), || sequence_pair(ctx, &mut acc, &set, k / n, k % n));
+		acc
+	}).reduce(Acc::default, Acc::merge);
+	(acc.merge(pairs), n)
 }
 
 fn check_value(ctx: &Ctx, acc: &mut Acc, case: &values::Case, chains: bool) {
@@ -653,6 +872,7 @@ fn check_value(ctx: &Ctx, acc: &mut Acc, case: &values::Case, chains: bool) {
 			// a value outside what the strict parser takes for a well-formed file (an attribute in a foreign place whose
 			// body breaks that place's rules, a table grown past a limit of its owner): not in the statement's domain
 			acc.st.outcome("optional-value-outside-the-strict-parsers-domain-skipped");
+			*acc.skipped.entry(focus).or_insert(0) += 1;
 			return;
 		},
 		Err(e) => vcore::machinery_fail(&format!("{label}: the strict parser rejects the reference encoding of a generated value (generator or reference encoder wrong): {e}")),
@@ -731,6 +951,9 @@ fn check_value(ctx: &Ctx, acc: &mut Acc, case: &values::Case, chains: bool) {
 				ctx.diff(&cause_key("bytes-left-unread"), &format!("read stops after {pos} of {} written bytes", w.len()), replay);
 			} else {
 				acc.st.outcome("value-read-back-equal");
+				if focus == "element-value-nesting" && w == reference {
+					acc.deepest_element_nesting = acc.deepest_element_nesting.max(values::element_nesting(v) as u64);
+				}
 				if !label.contains("/edit/") {
 					let full = case.deep && label_number(label) % ctx.tier.pick(12usize, 1) == 0 && w.len() < 4000;
 					io_alphabet(ctx, acc, &w, v, if full { Depth::Full } else { Depth::Small }, &replay);
@@ -812,7 +1035,12 @@ fn replay(ctx: &Ctx, path: &std::path::Path) -> ! {
 	let mut evals = 0;
 	for _ in 0..2 {
 		let mut acc = Acc::default();
-		if let Some(label) = body.lines().find_map(|l| l.strip_prefix("raw-case=")) {
+		if let Some(pair) = body.lines().find_map(|l| l.strip_prefix("sequence-pair=")) {
+			let set = sequence_set();
+			let ij = pair.split_once(',').and_then(|(i, j)| Some((i.trim().parse::<usize>().ok()?, j.trim().parse::<usize>().ok()?))).filter(|(i, j)| *i < set.len() && *j < set.len());
+			let (i, j) = ij.unwrap_or_else(|| vcore::machinery_fail("replay: bad sequence pair"));
+			sequence_pair(ctx, &mut acc, &set, i, j);
+		} else if let Some(label) = body.lines().find_map(|l| l.strip_prefix("raw-case=")) {
 			let variant = [PoolVariant::Base, PoolVariant::TwoSlotLast, PoolVariant::TwoSlotFirst].into_iter().find(|v| label.starts_with(&format!("raw/{}/", v.name()))).unwrap_or_else(|| vcore::machinery_fail("replay: unknown pool variant"));
 			if let Some((_, i)) = label.split_once("/StackMapTable-pair/") {
 				let space = values::FramePairs::new(variant);
@@ -922,6 +1150,9 @@ fn main() {
 		}
 	}
 
+	let (acc, n_sequence_values) = run_sequences(ctx);
+	run("sequences-of-two-values-on-one-thread", acc);
+
 	if let Some((_, n)) = &total.duke_note {
 		ctx.note(n.clone());
 	}
@@ -946,8 +1177,23 @@ fn main() {
 	ctx.floor("writes into every writer of the alphabet that arrived byte for byte", 200_000, st.get("io-write-equal"));
 	ctx.floor("failing writers whose error write reported", 100_000, st.get("io-write-error-reported"));
 	ctx.floor("edit chains (written, one table edited in place, judged again)", 50_000, total.edit_chains.values().sum());
-	ctx.floor("tables edited in place (of the 40 table kinds edits.rs visits)", 36, total.edit_chains.len() as u64);
+	ctx.floor("tables edited in place (of the 41 table kinds edits.rs visits)", 40, total.edit_chains.len() as u64);
 	ctx.floor("raw values whose written bytes were also read by duke", 2_500, st.get("value-bytes-read-by-duke"));
+	ctx.floor("failing readers (an I/O error after a prefix) whose error read reported", 100_000, st.get("io-read-error-reported"));
+	ctx.floor("full writers (Ok(0) after a prefix) on which write gave up with an error", 100_000, st.get("io-write-full-writer-error-reported"));
+	ctx.floor("reads of a class file cut off after a prefix (judged for panics and hangs only)", 200_000, st.get("io-read-cut-off-file-refused") + st.get("io-read-cut-off-file-accepted (not judged)"));
+	ctx.floor("reads of a class followed by other data that returned the class and left the data in place", 100_000, st.get("io-read-data-behind-the-class-left-in-place"));
+	ctx.floor("edit chains on a value that was read (read, written, one table edited in place, judged again)", ctx.tier.pick(10_000, 30_000), total.edit_chains_from_read);
+	let focus = |f: &str| total.focus.get(f).copied().unwrap_or(0);
+	ctx.floor("raw values with an attribute name (or other text) that is not ASCII, judged", 600, focus("attribute-name-text"));
+	ctx.floor("raw values with single / reserved / all flag bits, judged", 600, focus("flag-bits"));
+	ctx.floor("raw values with nested element values, judged", 1_000, focus("element-value-nesting"));
+	ctx.floor("deepest nesting of element values written as the JVMS prescribes and read back equal", 60, total.deepest_element_nesting);
+	ctx.floor("raw values with byte arrays of 4/8/16/32/64 KiB -1/+0/+1, judged", 60, focus("byte-array-sizes"));
+	ctx.floor("raw values with attribute names at pool indices 255..65533, judged", 24, focus("pool-index-positions"));
+	ctx.floor("raw values with every attribute kind in classes of 14 versions, judged", 600, focus("attribute-kinds-by-version"));
+	ctx.floor("second values of a sequence that behaved as on their own", (n_sequence_values * n_sequence_values * 12) as u64, st.get("sequence-second-value-as-on-its-own"));
+	ctx.floor("sequences of two values of different size", 1_000, st.get("sequence-of-two-values-of-different-size"));
 
 	let coverage = json!({
 		"evaluations": st.evaluations,
@@ -958,6 +1204,7 @@ fn main() {
 		"outcomes": st.outcomes,
 		"spaces": spaces,
 		"raw_value_cases_per_focus": total.focus,
+		"optional_raw_values_outside_the_strict_parsers_domain_per_focus": total.skipped,
 		"edit_chains_per_table": total.edit_chains,
 		"io": {
 			"requests_served_short": total.io_short_serves,
@@ -967,6 +1214,7 @@ fn main() {
 			"reader_alphabet_small": format!("{:?}", reader_alphabet(1, Depth::Small)),
 			"writer_alphabet_full": format!("{:?} + SplitAt(every offset up to 300 bytes, a grid of 101 beyond) + a writer failing after every such prefix + a slice one byte too small", writer_alphabet(1, Depth::Full)),
 			"writer_alphabet_small": format!("{:?} + a writer failing after 0, half, all but one bytes", writer_alphabet(1, Depth::Small)),
+			"refusing_environments": "per class / value, after each prefix of the failing-writer grid: a writer failing, a writer full (Ok(0)), a reader failing with an I/O error, the file cut off (slice and 3-byte chunks; panics and hangs only); a slice one byte too small; the class followed by its own first 24 bytes through 2 (small) / 8 (full) reader kinds",
 			"full_alphabet_on": format!("every corpus class, every {full_every}th case of each suite group, every {}th shape, every {}th deep raw value (files under 4000 bytes); the small alphabet on all others", full_every * 8, ctx.tier.pick(12, 1)),
 		},
 		"variants_in_raw_values": total.value_census.0,
@@ -980,6 +1228,18 @@ fn main() {
 			"suite": "cfmodel::suite::listed_groups (instruction samples x forms x pool orders, 3^8 forms, pool permutations/rotations/paddings, 6 kitchen sinks x attribute orders, module classes, element values, frame gaps, versions, Utf8 boundaries) + for every case with a two-slot constant or MethodParameters the same model without them",
 			"raw_values": "0/1/2 elements per vector over explicit alphabets, per attribute kind; pool variants base / Long+Double last / Long+Double first",
 			"raw_value_cases": n_values,
+			"text_prefix_lengths": values::TEXT_PREFIX_LENGTHS,
+			"text_tails": values::TEXT_TAILS.iter().map(|(n, _)| *n).collect::<Vec<_>>(),
+			"flag_patterns": "1 << 0..16, 0, 0xffff, 0x7fff, 0x8001 in 10 flags fields",
+			"element_value_nesting": "depths 1..=62 x {arrays, annotations, alternating from either} x 4 holders",
+			"deepest_element_nesting_judged": total.deepest_element_nesting,
+			"byte_array_sizes": "4, 8, 16, 32, 64 KiB -1/+0/+1 (u2-counted arrays up to 65535)",
+			"pool_index_positions": [255, 256, 257, 32767, 32768, 65533],
+			"sequence_values": n_sequence_values,
+			"sequence_pairs": n_sequence_values * n_sequence_values,
+			"sequence_variants_per_pair": "6 orders of asking x first value dropped / alive",
+			"edit_chains": "every table at every depth x {pop, dup} on the built value; on every 3rd (quick) / every (thorough) deep value also on the value read from its bytes",
+			"edit_chains_on_read_values": total.edit_chains_from_read,
 			"stack_map_tables": if thorough { "empty, every single frame of the full alphabet, every ordered pair of the full alphabet" } else { "empty, every single frame of the full alphabet, all pairs with at least one frame from the reduced alphabet (18 frames)" },
 			"corpus_classes": n_corpus,
 			"corpus_byte_exact": corpus_exact,
@@ -993,5 +1253,7 @@ fn main() {
 		"RuntimeVisible/InvisibleTypeAnnotations are not modelled by the crate (TODO in the source) and are exercised as `Other`",
 		"duke::read_class on the written bytes is recorded but a refusal by duke of JVMS bytes is not charged to raw_class_file",
 		"a class file is the same class file through every legal std::io::Read / Write: short serves, Interrupted (retry) and partial accepts are legal answers of the environment; the scripted readers and writers are self-tested (read_exact / write_all reproduce the data) before use",
+		"when the environment refuses (a reader or writer that fails or is full) the refusal must come back as an error: Ok would be a silently wrong answer. A file cut off is outside the statement and judged for panics and hangs only; a class followed by other data may be refused, but if read answers with the class it must have taken exactly the class from the caller's reader",
+		"what read / write / to_bytes / length answer for a value depends on the value alone, not on the values this thread handled before nor on the order of asking (sequence and edit-chain spaces)",
 	]);
 }
